@@ -157,6 +157,14 @@ def build_oracle(pid):
     bdir = os.path.join(ORACLE, "_build", low)
     exe = os.path.join(bdir, low + ".exe")
     ext = os.path.join(COQ, "extract", "Extract%s.v" % pid)
+    # the theories the extraction imports must be compiled from their current sources
+    mods = []
+    for m in re.finditer(r"From\s+GW\s+Require\s+Import\s+([^.]*)\.", open(ext).read()):
+        mods += m.group(1).split()
+    if mods:
+        ok, blog = coq_build(targets=mods)
+        if not ok:
+            return None, "theories imported by %s do not build:\n%s" % (os.path.basename(ext), blog[-3000:])
     srcs = [ext, os.path.join(ORACLE, low, "main.ml"), os.path.join(ORACLE, "common", "sx.ml")]
     srcs += glob.glob(os.path.join(THEORIES, "*.vo"))
     if os.path.exists(exe) and os.path.getmtime(exe) >= newest(srcs):
